@@ -1245,6 +1245,12 @@ func (s *shard) syncReplayWal(ctx context.Context) error {
 	if err != nil {
 		return err
 	}
+	if ctx.Err() != nil {
+		// the replay was cancelled (the shard is closing): records may be unread, so the log files must stay.
+		// They are replayed at the next open; flushing and removing them here would drop acknowledged rows.
+		s.log.Info("replay wal cancelled, wal files kept", zap.Uint64("id", s.ident.ShardID), zap.Uint64("opId", s.opId))
+		return nil
+	}
 	s.log.Info("replay wal files ok", zap.Uint64("id", s.ident.ShardID), zap.Uint64("opId", s.opId), zap.Duration("time used", time.Since(wStart)))
 
 	s.ForceFlush()
